@@ -296,7 +296,7 @@ type plan struct {
 
 // enumerate lists the crash points of a complete (pass-1) trace.
 func enumerate(tf *traceFile, w *world) *plan {
-	roots := []string{w.sb, w.tmp}
+	roots := w.roots()
 	pl := &plan{NamesSeen: map[string]int{}, MutatingNames: map[string]int{}}
 	for _, ev := range tf.Events {
 		if !ev.InWindow {
@@ -326,7 +326,7 @@ func enumerate(tf *traceFile, w *world) *plan {
 // tampered with. kill=true: the main thread's last call, which never returned;
 // kill=false: the call strace marked (INJECTED).
 func hitIndex(tf *traceFile, w *world, kill bool) (idx int, ev *sysEvent, why string) {
-	roots := []string{w.sb, w.tmp}
+	roots := w.roots()
 	if !tf.Begin {
 		return -1, nil, "the run never reached the operation (no BEGIN marker)"
 	}
